@@ -675,6 +675,8 @@ pub fn run(ctx: &mut Ctx) {
                 d!(ctx, N, $label, "A=TrZ,B=Tr4,U=u32", |k| $fname::<N, TrZ, Tr<0>, u32>(k));
                 d!(ctx, N, $label, "A=Tr4,B=TrZ,U=Tr4", |k| $fname::<N, Tr<0>, TrZ, Tr<0>>(k));
                 d!(ctx, N, $label, "A=Tr24,B=Tr8,U=TrZ", |k| $fname::<N, Tr<5>, Tr<1>, TrZ>(k));
+                d!(ctx, N, $label, "A=Nd,B=Nd,U=Tr4", |k| $fname::<N, Nd, Nd, Tr<0>>(k));
+                d!(ctx, N, $label, "A=Tr4,B=Nd,U=Nd", |k| $fname::<N, Tr<0>, Nd, Nd>(k));
             };
         }
         zips!(zip_oo, "zip-owned-owned");
@@ -691,6 +693,10 @@ pub fn run(ctx: &mut Ctx) {
         d!(ctx, N, "clone-array", "A=Tr4", |k| clone_arr::<N, Tr<0>>(k));
         d!(ctx, N, "clone-array", "A=TrZ", |k| clone_arr::<N, TrZ>(k));
         d!(ctx, N, "clone-array", "A=Tr24", |k| clone_arr::<N, Tr<5>>(k));
+        d!(ctx, N, "clone-array", "A=Nd", |k| clone_arr::<N, Nd>(k));
+        d!(ctx, N, "clone-box", "A=Nd", |k| clone_box::<N, Nd>(k));
+        d!(ctx, N, "map-owned", "A=Nd,U=Tr4", |k| map_owned::<N, Nd, Tr<0>>(k));
+        d!(ctx, N, "default-owned", "U=Nd", |k| default_owned::<N, Nd>(k));
         d!(ctx, N, "clone-box", "A=Tr4", |k| clone_box::<N, Tr<0>>(k));
         d!(ctx, N, "clone-box", "A=TrZ", |k| clone_box::<N, TrZ>(k));
         // collecting from a panicking source
